@@ -155,7 +155,7 @@ PLAN["C07"] = dict(
     level="proof",
 )
 PLAN["C08"] = dict(
-    verus=dict(quick=["nulls", "agg", "aggb.obool", "feat.of64"], thorough=["nulls", "agg", "aggb.obool", "aggb.bool", "feat.of64", "feat.f64", "quant"]),
+    verus=dict(quick=["nulls", "agg", "aggb.obool", "feat.of64", "quant"], thorough=["nulls", "agg", "aggb.obool", "aggb.bool", "feat.of64", "feat.f64", "quant"]),
     kani=dict(quick=["agg_bounded", "nulls_bounded"], thorough=["agg_bounded", "nulls_bounded"]),
     level="proof",
 )
